@@ -1,4 +1,5 @@
 import Chartparse.Model.Rate
+import Chartparse.Model.Render
 import Chartparse.Gen.Imports
 import Chartparse.Model.Objects
 import Chartparse.Gen.Classes
@@ -153,6 +154,13 @@ def handle (toks : List String) : String :=
         | .ok (d, c) => goSp r c (showOptNat d :: acc)
         | .error e => " ".intercalate (acc.reverse ++ [showErr e])
     goSp ts 0 []
+  | ["strs", text] =>
+    -- str() of every modelled event of the chart, in a fixed order, tracks sorted by key
+    match parseChart (parseCps text) none with
+    | .error e => "CHART " ++ showErr e
+    | .ok c => match Chartparse.Render.renderAll c (sortTracks c.tracks) with
+      | .ok l => "|".intercalate (l.map showCps)
+      | .error e => showErr e
   | ["imports", order] =>
     -- per step: ok / fail; then whether the final state is good (no partial module, canonical bindings)
     let seq := if order == "-" then [] else (order.splitOn ",").map String.toNat!
